@@ -40,7 +40,7 @@ CONSTANTS NF,       \* number of universe features in use (prefix of Universe)
           AllCK     \* TRUE: every compilation kind of the library; FALSE: CKSmall
 
 Universe == <<"ACTION_BASED", "CONTINUOUS_TIME", "TRAJECTORY_CONSTRAINTS", "STATE_INVARIANTS",
-              "CONDITIONAL_EFFECTS", "EXISTENTIAL_CONDITIONS", "PLAN_LENGTH", "ACTION_BASED_MULTI_AGENT",
+              "EXISTENTIAL_CONDITIONS", "PLAN_LENGTH", "CONDITIONAL_EFFECTS", "ACTION_BASED_MULTI_AGENT",
               "UNDEFINED_INITIAL_NUMERIC", "HIERARCHICAL">>
 U == 1..NF
 Bit(m, i) == (m \div (2 ^ (i - 1))) % 2 = 1
@@ -63,7 +63,7 @@ CKSmall == <<"GROUNDING", "CONDITIONAL_EFFECTS_REMOVING", "DISJUNCTIVE_CONDITION
 CKs == IF AllCK THEN CKAll ELSE CKSmall
 \* compilation kinds pipelines are made of
 CKPipe == <<"QUANTIFIERS_REMOVING", "CONDITIONAL_EFFECTS_REMOVING", "GROUNDING", "STATE_INVARIANTS_REMOVING",
-            "TRAJECTORY_CONSTRAINTS_REMOVING", "DISJUNCTIVE_CONDITIONS_REMOVING", "DURATIVE_ACTIONS_TO_PROCESSES">>
+            "TRAJECTORY_CONSTRAINTS_REMOVING", "DURATIVE_ACTIONS_TO_PROCESSES", "DISJUNCTIVE_CONDITIONS_REMOVING">>
 
 R(mode, m, ck, pk, og, ag, cks, call) ==
    [mode |-> mode, f |-> KindOf(m), ck |-> ck, pk |-> pk, og |-> og, ag |-> ag, cks |-> cks, call |-> call, grp |-> Grp(m)]
@@ -111,7 +111,7 @@ ModeMenu == << {"oneshot_planner"},
                {"replanner", "oneshot_planner"},
                {"compiler", "plan_validator", "sequential_simulator"},
                {"portfolio_selector", "replanner", "action_selector"} >>
-\* supported part of the universe, as masks relative to the full universe in use
+\* supported part of the universe, as masks relative to the full universe in use (NF >= 6)
 Full == 2 ^ NF - 1
 FeatMenu == << Full, Full - 1, Full - 2, Full - 4, Full - 8 - 16, Full - 32, 1, 1 + 16 + 32, 2 + 4 + 8, 0 >>
 PlanMenu == << {}, {"SEQUENTIAL_PLAN"}, {"TIME_TRIGGERED_PLAN", "PARTIAL_ORDER_PLAN"}, {"SEQUENTIAL_PLAN", "TIME_TRIGGERED_PLAN"} >>
@@ -119,9 +119,10 @@ CompMenu == << {"GROUNDING"}, {"QUANTIFIERS_REMOVING", "GROUNDING"}, {"TRAJECTOR
                {"CONDITIONAL_EFFECTS_REMOVING", "STATE_INVARIANTS_REMOVING", "DISJUNCTIVE_CONDITIONS_REMOVING"}, {} >>
 OptMenu == << {}, {"SATISFICING"}, {"SOLVED_OPTIMALLY"}, {"SATISFICING", "SOLVED_OPTIMALLY"} >>
 AnyMenu == << {}, {"INCREASING_QUALITY"}, {"OPTIMAL_PLANS"}, {"INCREASING_QUALITY", "OPTIMAL_PLANS"} >>
-\* features a mock compiler removes / adds in resulting_problem_kind (universe indices)
-RemMenu == << {}, {3}, {4, 5}, {6}, {2, 3, 4, 5, 6} >>
-AddMenu == << {}, {}, {5}, {} >>
+\* features a mock compiler removes / adds in resulting_problem_kind (universe indices:
+\* 2 CONTINUOUS_TIME, 3 TRAJECTORY_CONSTRAINTS, 4 STATE_INVARIANTS, 5 EXISTENTIAL_CONDITIONS, 6 PLAN_LENGTH)
+RemMenu == << {}, {3}, {4, 5}, {5}, {2, 3, 4, 5, 6} >>
+AddMenu == << {}, {}, {4}, {} >>
 
 Radix == <<Len(ModeMenu), Len(FeatMenu), Len(PlanMenu), Len(CompMenu), Len(OptMenu), Len(AnyMenu), Len(RemMenu), Len(AddMenu)>>
 RECURSIVE Prod(_, _)
@@ -148,7 +149,7 @@ Cfg(c) ==
     schemes |-> <<Schemes[1 + (c % Len(Schemes))], Schemes[1 + ((c + 1 + (c \div Len(Schemes))) % Len(Schemes))]>>]
 Cfgs == {Cfg(c) : c \in 1..NC}
 
-ASSUME NF <= Len(Universe)
+ASSUME 6 <= NF /\ NF <= Len(Universe) /\ NPipe <= Len(CKPipe)
 ASSUME ndJsonSerialize(IOEnv.OUT_UNIV, <<[universe |-> SubSeq(Universe, 1, NF), ingredients |-> Ingredients, schemes |-> Schemes,
                                           space |-> Space, kinds |-> Cardinality(Masks), pipes |-> Cardinality(PipeSeqs)]>>)
 ASSUME ndJsonSerialize(IOEnv.OUT_REQS, SetToSeq(Reqs))
